@@ -17,8 +17,8 @@ BATTERIES = {
     'C13': [['names']],
     'C14': [['config']],
     'C08': [['emit-twice'], ['customs']],
-    'C06': [['gc']],
-    'C07': [['gc']],
+    'C06': [['gc'], ['gc', 'random', '300', '1']],
+    'C07': [['gc'], ['gc', 'random', '300', '1']],
     'C04': [['entities']],
     'C19': [['maps'], ['entities']],
     'C16': [['visit'], ['visit-cf', '4', '3'], ['visit-deep', '100000']],
